@@ -19,7 +19,8 @@ def _vc(name, variables=None, label=None):
     return ("vc", name, variables, label)
 
 
-JEAIII = [_vc("jeaiii", None, "jeaiii")]
+JEAIII = [_vc("jeaiii", {"WITH128": "0"}, "jeaiii")]
+JEAIII_T = [_vc("jeaiii", {"WITH128": "1"}, "jeaiii+u128")]
 WI_RADIX = [_vc("wi_radix", {"T": "u64", "BITS": "64"}, "wi_radix-u64"),
             _vc("wi_radix", {"T": "u32", "BITS": "32"}, "wi_radix-u32")]
 DIV128_Q = [_vc("div128", {"FEATURES": "radix"}, "div128-radix")]
@@ -39,7 +40,7 @@ PROPS["C01"] = dict(
     level_text="Every ingredient the correct-rounding theorems rest on is a discharged obligation: each of the 651 Lemire "
                "rows, every integer power table, every Clinger limit (safety direction), SWAR digit kernels on full "
                "domains. The end-to-end rounding theorems themselves are listed as assumptions.",
-    rows_quick=["pf-lemire-table", "pf-int-powers", "pf-limits"],
+    rows_quick=["pf-lemire-table", "pf-lemire-constants", "pf-int-powers", "pf-limits"],
     assumptions=FLOAT_THEOREMS,
 )
 PROPS["C02"] = dict(
@@ -60,7 +61,7 @@ PROPS["C03"] = dict(
                "all 35 radices) prove quotient/remainder for all n; every radix^2 digit table entry and every step / "
                "divisor constant is a discharged row obligation; Kani proves small-width entry points on the real crates "
                "over their full domains.",
-    verus_quick=DIV128_Q + WI_RADIX + JEAIII, verus_thorough=DIV128_T + WI_RADIX + JEAIII,
+    verus_quick=DIV128_Q + WI_RADIX + JEAIII, verus_thorough=DIV128_T + WI_RADIX + JEAIII_T,
     rows_quick=["wi-digit-tables", "util-step"],
     assumptions=["core::fmt::Display prints the canonical decimal numeral (not verified here)"],
 )
@@ -86,7 +87,7 @@ PROPS["C09"] = dict(
                "proved), with a frame postcondition (bytes beyond the returned length unchanged); Kani checks pointer "
                "validity on the real unsafe code for the 8/16-bit types in all radices with a guard region behind the "
                "caller's slice. Float writers are not yet under contract for this property.",
-    verus_quick=WI_RADIX + JEAIII,
+    verus_quick=WI_RADIX + JEAIII, verus_thorough=WI_RADIX + JEAIII_T,
     assumptions=["float writers (Dragonbox/Grisu/binary/radix emit functions) are not covered by this check yet"],
 )
 PROPS["C10"] = dict(
@@ -164,7 +165,7 @@ def build_jobs(prop, tier, wd, only=None):
             continue
         if only and only not in h.name:
             continue
-        feats = h.feats if tier == "thorough" else h.feats[:1]
+        feats = h.feats if tier == "thorough" else h.feats[:h.quickfeats]
         for fs in feats:
             groups.setdefault(fs, []).append(h)
     for fs, lst in sorted(groups.items()):
